@@ -25,6 +25,10 @@ type Proto struct {
 	StateRootInHeader bool   `json:"srih"`
 	P2PSig            bool   `json:"p2psig"`
 	MTB               uint32 `json:"mtb"` // MaxTraceableBlocks
+	// HF selects the hard fork schedule: 0 = the test chain's default (Aspidochelone..Echidna at heights 1..5, later
+	// ones never), 1 = Faun at 6 and Gorgon at 8 in addition, 2 = Faun and Gorgon at 5 together with Echidna,
+	// 3 = every hard fork from genesis.
+	HF int `json:"hf,omitempty"`
 }
 
 // Local are node-local settings.
@@ -74,13 +78,18 @@ func (s *tbShim) Logf(string, ...any) {}
 func (s *tbShim) Log(...any)          {}
 func (s *tbShim) Cleanup(func())      {}
 
+// debugNodeLogs (debugging aid, set by the network simulation under VERIF_NETDEBUG) receives every log entry of every node.
+var debugNodeLogs func(string)
+
 // logCore counts warn/error log entries by message (probes) and lets Fatal panic.
 type logCore struct {
 	mu     sync.Mutex
 	counts map[string]int
 }
 
-func (c *logCore) Enabled(l zapcore.Level) bool      { return l >= zapcore.WarnLevel }
+func (c *logCore) Enabled(l zapcore.Level) bool {
+	return l >= zapcore.WarnLevel || debugNodeLogs != nil
+}
 func (c *logCore) With([]zapcore.Field) zapcore.Core { return c }
 func (c *logCore) Check(e zapcore.Entry, ce *zapcore.CheckedEntry) *zapcore.CheckedEntry {
 	if c.Enabled(e.Level) {
@@ -88,7 +97,17 @@ func (c *logCore) Check(e zapcore.Entry, ce *zapcore.CheckedEntry) *zapcore.Chec
 	}
 	return ce
 }
-func (c *logCore) Write(e zapcore.Entry, _ []zapcore.Field) error {
+func (c *logCore) Write(e zapcore.Entry, fs []zapcore.Field) error {
+	if debugNodeLogs != nil {
+		enc := zapcore.NewMapObjectEncoder()
+		for _, f := range fs {
+			f.AddTo(enc)
+		}
+		debugNodeLogs(fmt.Sprintf("%s %s %v", e.Level, e.Message, enc.Fields))
+	}
+	if e.Level < zapcore.WarnLevel {
+		return nil
+	}
 	if e.Level == zapcore.InfoLevel && !strings.Contains(e.Message, "view") && !strings.Contains(e.Message, "recover") {
 		return nil // only the consensus view-change / recovery messages are interesting at info level
 	}
@@ -122,6 +141,18 @@ func newLogger(lc *logCore) *zap.Logger {
 }
 
 func (p Proto) apply(c *config.Blockchain) {
+	switch p.HF {
+	case 1:
+		c.Hardforks[config.HFFaun.String()] = 6
+		c.Hardforks[config.HFGorgon.String()] = 8
+	case 2:
+		c.Hardforks[config.HFFaun.String()] = 5
+		c.Hardforks[config.HFGorgon.String()] = 5
+	case 3:
+		for _, hf := range config.StableHardforks {
+			c.Hardforks[hf.String()] = 0
+		}
+	}
 	c.StateRootInHeader = p.StateRootInHeader
 	c.P2PSigExtensions = p.P2PSig
 	if p.MTB != 0 {
